@@ -96,6 +96,28 @@ class Interp:
         self.self_role = self_role
         self.zero_when = zero_when or {}       # atom key -> set of D attributes known to be 0 when the atom is true
         self.consulted = set()
+        self.methods = {}                      # name -> FunctionDef of the class the interpreted method belongs to
+        self.depth = 0
+
+    def call(self, fn, argvals, outer):
+        params = [a.arg for a in fn.args.args]
+        if len(params) != len(argvals) or fn.args.vararg or fn.args.kwarg or fn.args.kwonlyargs:
+            return UNK
+        env = {k: v for k, v in outer.items() if v[0] == 'func'}
+        env.update(zip(params, argvals))
+        if params and params[0] == 'self':
+            del env['self']
+        self.depth += 1
+        try:
+            if isinstance(fn, ast.Lambda):
+                return self.ev(fn.body, env)
+            body = list(fn.body)
+            if not body or not isinstance(body[-1], ast.Return) or body[-1].value is None or any(isinstance(n, ast.Return) for b in body[:-1] for n in ast.walk(b)):
+                return UNK
+            self.run(body[:-1], env, lambda *a: None)
+            return self.ev(body[-1].value, env)
+        finally:
+            self.depth -= 1
 
     # -- expressions
     def truth(self, key):
@@ -155,9 +177,12 @@ class Interp:
                 for a in e.args:
                     v = _as_max(self.num(self.ev(a, env)))
                     if v is None:
-                        return UNK
-                    items |= v[1]
+                        items.add(('unknown', ' '.join(node_src(a, 60).split())))      # dominated, but the checker cannot say what it is
+                    else:
+                        items |= v[1]
                 return ('max', frozenset(items))
+            if isinstance(f, ast.Name) and f.id == 'min' and len(e.args) >= 2:
+                return ('notmax', 'min(...)')
             if isinstance(f, ast.Name) and f.id in ('sorted', 'reversed', 'list', 'tuple') and len(e.args) == 1:
                 a = self.ev(e.args[0], env)
                 return a if a[0] == 'coll' else UNK
@@ -170,7 +195,19 @@ class Interp:
                 return self.num(self.ev(e.args[0], env))
             if isinstance(f, ast.Attribute) and f.attr == 'bit_length' and not e.args:
                 return ('width', ('bits', self.ev(f.value, env), 0))
+            # a local helper (nested def / lambda) or a method of the same class: interpreted on the abstract arguments
+            target = None
+            if isinstance(f, ast.Name) and env.get(f.id, UNK)[0] == 'func':
+                target, bound = env[f.id][1], []
+            elif isinstance(f, ast.Attribute) and isinstance(f.value, ast.Name) and f.value.id == 'self' and f.attr in self.methods:
+                target = self.methods[f.attr]
+                static = any(isinstance(d, ast.Name) and d.id == 'staticmethod' for d in target.decorator_list)
+                bound = [] if static else [('ref', self.self_role)]
+            if target is not None and not e.keywords and self.depth < 3:
+                return self.call(target, bound + [self.ev(a, env) for a in e.args], env)
             return UNK
+        if isinstance(e, ast.Lambda):
+            return ('func', e)
         if isinstance(e, ast.BinOp) and isinstance(e.op, (ast.Add, ast.Sub)):
             a, b = self.num(self.ev(e.left, env)), self.num(self.ev(e.right, env))
             if a[0] == 'acc' and b[0] == 'lin' and set(b[1]) <= {ONE}:
@@ -306,7 +343,9 @@ class Body(Interp):
         elif isinstance(s, (ast.While, ast.With, ast.Try)):
             for nm in _assigned_names([s]):
                 env[nm] = UNK
-        elif isinstance(s, (ast.Pass, ast.Import, ast.ImportFrom, ast.FunctionDef, ast.Assert, ast.Global, ast.Nonlocal, ast.Delete)):
+        elif isinstance(s, ast.FunctionDef):
+            env[s.name] = ('func', s)
+        elif isinstance(s, (ast.Pass, ast.Import, ast.ImportFrom, ast.Assert, ast.Global, ast.Nonlocal, ast.Delete)):
             pass
         else:
             for nm in _assigned_names([s]):
@@ -356,6 +395,29 @@ def enumerate_cases(run_one, limit=64):
 
 
 # ---- the fact about generator expressions ---------------------------------------------------------------------------------
+def kind_count_attrs(ctx):
+    """{'pos_only': attr, 'kw_only': attr}: the DefNode attributes that DefNode.__init__ sets to the number of arguments with that flag
+    (`for arg in self.args: if arg.<flag>: n += 1 ... self.<attr> = n`, the increment directly under the test of the flag)"""
+    dn = ctx.index.cls('Nodes', 'DefNode')
+    init = dn.methods.get('__init__') if dn else None
+    out = {}
+    if init is None:
+        return out
+    counter_flag = {}
+    for lp in ast.walk(init):
+        if isinstance(lp, ast.For) and isinstance(lp.iter, ast.Attribute) and lp.iter.attr == 'args' and isinstance(lp.target, ast.Name):
+            for st in lp.body:
+                if isinstance(st, ast.If) and isinstance(st.test, ast.Attribute) and isinstance(st.test.value, ast.Name) and st.test.value.id == lp.target.id:
+                    for b in st.body:
+                        if isinstance(b, ast.AugAssign) and isinstance(b.target, ast.Name) and isinstance(b.op, ast.Add) and isinstance(b.value, ast.Constant) and b.value.value == 1:
+                            counter_flag.setdefault(b.target.id, set()).add(st.test.attr)
+    for n in ast.walk(init):
+        if isinstance(n, ast.Assign) and len(n.targets) == 1 and isinstance(n.targets[0], ast.Attribute) and isinstance(n.targets[0].value, ast.Name) \
+                and n.targets[0].value.id == 'self' and isinstance(n.value, ast.Name) and len(counter_flag.get(n.value.id, ())) == 1:
+            out[next(iter(counter_flag[n.value.id]))] = n.targets[0].attr
+    return out
+
+
 def genexpr_zero_counts(ctx):
     """-> (set of DefNode attributes that are 0 for a generator expression, [evidence strings]); empty set when the source does not show it"""
     ix = ctx.index
@@ -457,10 +519,11 @@ def _emitted_texts(stmt):
                 yield n, parts
 
 
-def writer_cases(gen, zero):
+def writer_cases(gen, zero, methods=None):
     """[(case, [value per initialiser position] , consulted atoms)]"""
     def run_one(case):
         it = Body(case, 'N', {'D.is_generator_expression': zero} if zero else {})
+        it.methods = methods or {}
         found = []
 
         def hook(s, env, interp):
@@ -483,11 +546,12 @@ class SizerResult:
         self.final = {}
 
 
-def sizer_paths(gs):
+def sizer_paths(gs, methods=None):
     """paths of the sizer outside the per-node loop -> [(case, SizerResult)]"""
     def run_one(case):
         res = SizerResult()
         it = Body(case, 'S')
+        it.methods = methods or {}
 
         def hook(s, env, interp):
             if isinstance(s, ast.For):
@@ -504,6 +568,7 @@ def sizer_paths(gs):
 
                 def body_case(bcase):
                     bi = Body(bcase, 'S')
+                    bi.methods = methods or {}
                     benv = dict(env)
                     if isinstance(s.target, ast.Name):
                         benv[s.target.id] = ('ref', 'N')
@@ -571,16 +636,38 @@ def co_flag_names(gen):
     return out
 
 
-def cover_findings(gen, gs, zero):
+def cover_findings(gen, gs, zero, wmethods=None, smethods=None, kinds=None):
     """-> (instances [(key, sample)], findings [(key, rel, line, msg)], infos)"""
     inst, finds, infos = [], [], []
-    wcases = [(c, vals, cons) for c, (vals, cons) in writer_cases(gen, zero) if vals is not None]
+    wcases = [(c, vals, cons) for c, (vals, cons) in writer_cases(gen, zero, wmethods) if vals is not None]
     if not wcases:
         raise AnalysisError('generate_codeobj: the initialiser of __Pyx_PyCode_New_function_description was not reached by the interpreter')
-    spaths = [(c, r) for c, r in sizer_paths(gs) if r.fields]
+    spaths = [(c, r) for c, r in sizer_paths(gs, smethods) if r.fields]
     if not spaths:
         raise AnalysisError('generate_codeobject_constants: no path emits the bit-field struct')
     gkey = 'Code.GlobalState.generate_codeobject_constants'
+    # what the three counts of a code object mean (CPython data model: co_argcount = positional parameters incl. positional-only, without keyword-only / * / **;
+    # DefNode.args holds positional and keyword-only parameters): every function that is not a generator expression stores exactly these quantities
+    if kinds and 'kw_only' in kinds and 'pos_only' in kinds:
+        want = {'argcount': {'len(D.args)': 1, 'D.' + kinds['kw_only']: -1}, 'posonly': {'D.' + kinds['pos_only']: 1}, 'kwonly': {'D.' + kinds['kw_only']: 1}}
+        fields0 = [f for f, _, _ in spaths[0][1].fields]
+        for i, field in enumerate(fields0):
+            role = 'posonly' if 'posonly' in field.replace('_', '') else 'kwonly' if 'kwonly' in field.replace('_', '') else 'argcount' if 'argcount' in field.replace('_', '') else None
+            if role is None:
+                continue
+            inst.append(('value:%s' % field, 'field %s must hold [%s] for every function that is not a generator expression' % (field, show(want[role]))))
+            for wcase, wvals, _ in wcases:
+                if wcase.get('D.is_generator_expression') is True or i >= len(wvals):
+                    continue
+                w = wvals[i]
+                if w[0] == 'lin' and w[1] == want[role]:
+                    continue
+                wl_ = _relevant_lits(wcases, wcase, i)
+                finds.append(('ExprNodes.CodeObjectNode.generate_codeobj:value:%s:%s' % (field, wl_ or 'always'), EXN, gen.lineno,
+                              'generate_codeobj stores [%s] in the %s field of the code-object description for a function%s; the number of %s parameters of the function is [%s]: '
+                              'inspect.signature() of the compiled function shows a different parameter list than the source' % (
+                                  show(w[1]) if w[0] == 'lin' else 'a value the checker cannot follow', field, (' with ' + wl_) if wl_ else '',
+                                  {'argcount': 'positional', 'posonly': 'positional-only', 'kwonly': 'keyword-only'}[role], show(want[role]))))
     for scase, res in spaths:
         sizers = [lp for lp in res.loops if lp['kind'] == 'sizer']
         writers = [lp for lp in res.loops if lp['kind'] == 'writer']
@@ -628,13 +715,18 @@ def cover_findings(gen, gs, zero):
                 name = val[1]
                 pre = _as_max(lp['pre'][name])
                 per_case = []
+                unknown = []
                 for bcase, (vals, jump) in lp['cases']:
-                    v = vals.get(name, UNK)
-                    m = _as_max(v) if v[0] in ('max', 'lin') else None
+                    v = interp_num(vals.get(name, UNK))
+                    if v[0] not in ('max', 'lin', 'notmax'):
+                        raise AnalysisError('generate_codeobject_constants: the value assigned to %s in the sizing loop is outside the modelled subset (%s)%s' % (
+                            name, v[0], (' when ' + _lits(bcase)) if bcase else ''))
+                    m = _as_max(v)
                     if m is None or ('carry', name) not in m[1]:
                         per_case.append((bcase, None))
                     else:
                         forms = [dict(f[1]) for f in m[1] if f[0] == 'lin']
+                        unknown += [f[1] for f in m[1] if f[0] == 'unknown']
                         per_case.append((bcase, forms))
                 resets = [bc for bc, f in per_case if f is None]
                 if resets:
@@ -646,7 +738,7 @@ def cover_findings(gen, gs, zero):
                 base_forms = [dict(f[1]) for f in pre[1] if f[0] == 'lin'] if pre else []
             elif val[0] == 'lin' and set(val[1]) <= {ONE}:
                 per_case = [({}, [dict(val[1])])]
-                base_forms = []
+                base_forms, unknown = [], []
             else:
                 raise AnalysisError('generate_codeobject_constants: bit-field %s is sized from a value the interpreter cannot follow (%s)' % (field, _valshow(val)))
             for wcase, wvals, _ in wcases:
@@ -663,6 +755,9 @@ def cover_findings(gen, gs, zero):
                     cand = (forms or []) + base_forms
                     if any(dominated(wf, f) for f in cand):
                         continue
+                    if val[0] == 'acc' and unknown:
+                        raise AnalysisError('generate_codeobject_constants: %s accumulates %s, which the checker cannot follow (helper call?); bit-field %s not decided' % (
+                            val[1], unknown[0], field))
                     wl_ = _relevant_lits(wcases, wcase, i)
                     lits = _lits(bcase) or wl_
                     finds.append(('%s:cover:%s:%s' % (gkey, field, lits or 'always'), CODE, (lp['line'] if val[0] == 'acc' else wexpr.lineno),
@@ -684,6 +779,12 @@ def _relevant_lits(wcases, wcase, i):
                 if vals2[i] != mine[i]:
                     keep[k] = v
     return _lits(keep)
+
+
+def interp_num(v):
+    if v[0] == 'attr':
+        return _lin({'%s.%s' % (v[1], v[2]): 1})
+    return v
 
 
 def _valshow(v):
@@ -734,7 +835,7 @@ def generate_codeobj(self, code, error_label):
 def rule_cover(ctx):
     r = Rule('C25-COVER', 'code-object description: under every combination of the def-node flags the two functions test, each count generate_codeobj stores is included in the running '
              'maximum that sizes its bit-field in generate_codeobject_constants (same collection, no early loop exit, accumulating maxima, width = bit length), and every CO_* '
-             'flag fits the flags mask', floor=12)
+             'flag fits the flags mask', floor=15)
     ix = ctx.index
     con = ix.cls('ExprNodes', 'CodeObjectNode')
     gen = con.methods.get('generate_codeobj') if con else None
@@ -746,7 +847,10 @@ def rule_cover(ctx):
     r.inst('genexpr-zero-counts', sample='; '.join(evidence)[:200])
     if not zero:
         r.info('the source does not show that generator expressions have zero keyword-only / positional-only counts: %s' % '; '.join(evidence))
-    inst, finds, infos = cover_findings(gen, gs, zero)
+    kinds = kind_count_attrs(ctx)
+    if len(kinds) < 2:
+        raise AnalysisError('DefNode.__init__: the counters of positional-only / keyword-only arguments were not recognised (%s)' % kinds)
+    inst, finds, infos = cover_findings(gen, gs, zero, dict(con.methods), dict(gsc.methods), kinds)
     for key, sample in inst:
         r.inst(key, sample=sample)
     seen = set()
@@ -779,7 +883,7 @@ def rule_cover(ctx):
                           ' and inspect.signature() no longer shows the *args / **kwargs parameter' if name in ('CO_VARARGS', 'CO_VARKEYWORDS') else
                           ' and inspect.isgeneratorfunction / iscoroutinefunction answer wrongly'))
     pw, ps = ast.parse(POSITIVE_WRITER).body[0], ast.parse(POSITIVE_SIZER).body[0]
-    _, pf, _ = cover_findings(pw, ps, {'num_kwonly_args'})
+    _, pf, _ = cover_findings(pw, ps, {'num_kwonly_args'}, kinds={'kw_only': 'num_kwonly_args', 'pos_only': 'num_posonly_args'})
     r.positive_control(any(':cover:argcount:' in k and 'is_generator' in k for k, _, _, _ in pf) and not any(':cover:nlocals' in k for k, _, _, _ in pf),
                        'a sizer that skips generator functions while the writer stores their argument count')
     return r
